@@ -102,7 +102,7 @@ func ruleP15Utc(p *Prog, r *Report) {
 			r.check(okUTC, rule, fmt.Sprintf("%s:In#%d", fnName(f), i), p.instrPos(c), "calendar arithmetic anchored at UTC", "weekday / week number are computed in a location other than UTC (depends on the host's zone and its daylight-saving rules)")
 		})
 	}
-	if n < 2 {
+	if n < 1 {
 		r.undecided(rule, "floor", "-", "expected the weekday and week-number computations (found %d civil.Date.In sites)", n)
 	}
 }
